@@ -148,29 +148,45 @@ Ltac eqb_to_eq :=
          | H : Z.eqb _ _ = true |- _ => apply Z.eqb_eq in H
          end.
 
+Lemma infl_equivb_sound : forall s s', infl_equivb s s' = true -> infl_equiv s s'.
+Proof. intros s s' H. unfold infl_equivb in H. split_andb. eqb_to_eq. unfold infl_equiv. auto. Qed.
+
+Lemma oracle_equivb_sound : forall so h t s s', oracle_equivb so h t s s' = true -> oracle_equiv so h t s s'.
+Proof.
+  intros so h t s s' H. unfold oracle_equivb in H. split_andb. eqb_to_eq.
+  unfold oracle_equiv. do 10 (split; [assumption|]).
+  intros Hso Hf. subst so.
+  match goal with H : false || _ = true |- _ => cbn in H; unfold implb' in H end.
+  apply rewards_freshb_iff in Hf.
+  match goal with H : (if rewards_freshb _ then _ else _) = true |- _ => rewrite Hf in H; apply rewards_freshb_iff in H; exact H end.
+Qed.
+
+Lemma tf_equivb_sound : forall ro s s', tf_equivb ro s s' = true -> tf_equiv ro s s'.
+Proof.
+  intros ro s s' H. unfold tf_equivb in H. split_andb. eqb_to_eq.
+  unfold tf_equiv. do 5 (split; [assumption|]).
+  intros Hro. subst ro.
+  match goal with H : false || _ = true |- _ => cbn in H; apply eqb_of_true in H; exact H end.
+Qed.
+
+Lemma evm_equivb_sound : forall env s s', evm_equivb env s s' = true -> evm_equiv env s s'.
+Proof.
+  intros env s s' H. unfold evm_equivb in H. split_andb. eqb_to_eq.
+  unfold evm_equiv. do 5 (split; [assumption|]). assumption.
+Qed.
+
 Lemma state_equivb_sound : forall so ro env h t s s',
   state_equivb so ro env h t s s' = true -> state_equiv so ro env h t s s'.
 Proof.
   intros so ro env h t s s' H. unfold state_equivb in H. split_andb.
-  unfold state_equiv. repeat split.
-  - eqb_to_eq. assumption.
-  - unfold infl_equivb in *. split_andb. eqb_to_eq. assumption.
-  - unfold infl_equivb in *. split_andb. eqb_to_eq. assumption.
-  - unfold infl_equivb in *. split_andb. eqb_to_eq. assumption.
-  - unfold epochs_equivb in *. eqb_to_eq. assumption.
-  - match goal with H : oracle_equivb _ _ _ _ _ = true |- _ => unfold oracle_equivb in H; split_andb; eqb_to_eq end.
-    unfold oracle_equiv. repeat split; try assumption.
-    intros Hso Hf. subst so.
-    match goal with H : false || _ = true |- _ => cbn in H; unfold implb' in H end.
-    apply rewards_freshb_iff in Hf.
-    match goal with H : (if rewards_freshb _ then _ else _) = true |- _ => rewrite Hf in H; apply rewards_freshb_iff in H; exact H end.
-  - match goal with H : tf_equivb _ _ _ = true |- _ => unfold tf_equivb in H; split_andb; eqb_to_eq end.
-    unfold tf_equiv. repeat split; try assumption.
-    intros Hro. subst ro.
-    match goal with H : false || _ = true |- _ => cbn in H; apply eqb_of_true in H; exact H end.
-  - eqb_to_eq. assumption.
-  - match goal with H : evm_equivb _ _ _ = true |- _ => unfold evm_equivb in H; split_andb; eqb_to_eq end.
-    unfold evm_equiv. repeat split; assumption.
+  unfold state_equiv.
+  split; [eapply eqb_of_true; eassumption|].
+  split; [apply infl_equivb_sound; assumption|].
+  split; [unfold epochs_equivb in *; eapply eqb_of_true; eassumption|].
+  split; [apply oracle_equivb_sound; assumption|].
+  split; [apply tf_equivb_sound; assumption|].
+  split; [eapply eqb_of_true; eassumption|].
+  apply evm_equivb_sound; assumption.
 Qed.
 
 (* ------------------------------------------------------------------ well-formed states *)
